@@ -25,3 +25,5 @@ def run(project, rep):
     from .. import rules_parser as P
     rep.rule("U-R6", "vendor-prefixed aggregates reach the model layer as sub-trees of their own (so that groom() can drop them whole): the tokenizer's dispatcher starts / ends an element for every tag it matches (P-R6)")
     rep.run(P.p_r6_every_match_dispatched, project, rep)
+    rep.run(P.p_r7_every_match_fed, project, rep)
+    rep.run(P.x_rules, project, rep)
